@@ -43,6 +43,38 @@ template <size_t K> struct IO<RecInt::rint<K> > {
     static std::string show(const RecInt::rint<K>& x) { Integer z(x); std::ostringstream o; o << z; return o.str(); }
 };
 
+template <class Ring> struct ReduceOp {        // reduce(r, a): r <- a mod p, two-address form
+    typedef typename Ring::Element E;
+    const Ring& F;
+    ReduceOp(const Ring& f) : F(f) {}
+    bool operator()(std::vector<E*>& o, std::string&) { F.reduce(*o[0], *o[1]); return true; }
+};
+// Modular<integral S, integral C> with sizeof(S) == sizeof(C): the multiplications with a precomputed quotient
+// (modular-mulprecomp.inl); the python side only sends moduli of at most 4 sizeof(C) - 2 bits
+template <class Ring, class En = void> struct Precomp {
+    static std::string go(const Ring&, const Case&) { return "UNSUPPORTED"; }
+};
+template <class S, class C> struct Precomp<Modular<S, C>, typename std::enable_if<std::is_integral<S>::value && std::is_integral<C>::value && sizeof(S) == sizeof(C)>::type> {
+    typedef Modular<S, C> Ring; typedef typename Ring::Element E;
+    struct Op {
+        const Ring& F; std::string op;
+        Op(const Ring& f, const std::string& o) : F(f), op(o) {}
+        bool operator()(std::vector<E*>& o, std::string& ret) {
+            typename Ring::Compute_t inv; size_t bits;
+            if (op == "mul_precomp_p") { F.precomp_p(inv, bits); F.mul_precomp_p(*o[0], *o[1], *o[2], inv, bits); }
+            else if (op == "mul_precomp_b") { F.precomp_b(inv, *o[2]); F.mul_precomp_b(*o[0], *o[1], *o[2], inv); }
+            else if (op == "mul_precomp_b_without_reduction") {
+                F.precomp_b(inv, *o[2]);
+                typename Ring::Residu_t rr = F.mul_precomp_b_without_reduction(*o[0], *o[1], *o[2], inv);
+                ret = IO<typename Ring::Residu_t>::show(rr);
+            }
+            else return false;
+            return true;
+        }
+    };
+    static std::string go(const Ring& F, const Case& c) { Op op(F, c.op); return run_two<E, IO<E> >(c, op); }
+};
+
 template <class Ring, bool HASDIV> struct Run {
     typedef typename Ring::Element E;
     typedef typename Ring::Residu_t R;
@@ -55,6 +87,8 @@ template <class Ring, bool HASDIV> struct Run {
             if (!HASDIV) return "UNSUPPORTED";
             return div(F, c, std::integral_constant<bool, HASDIV>());
         }
+        if (c.op.compare(0, 11, "mul_precomp") == 0) return Precomp<Ring>::go(F, c);
+        if (c.op == "reduce") { ReduceOp<Ring> op(F); return run_two<E, IO<E> >(c, op); }
         RingOp<Ring> op(F, c.op);
         return run_two<E, IO<E> >(c, op);
     }
@@ -69,6 +103,7 @@ template <class Ring> struct RunZ {
     typedef typename Ring::Element E;
     static std::string go(const Case& c) {
         static Ring F;
+        if (c.op == "reduce") { ReduceOp<Ring> op(F); return run_two<E, IO<E> >(c, op); }
         if (is_div_op(c.op)) { RingDivOp<Ring> op(F, c.op); return run_two<E, IO<E> >(c, op); }
         RingOp<Ring> op(F, c.op);
         return run_two<E, IO<E> >(c, op);
